@@ -89,7 +89,7 @@ def drive_generator(it, script, on_step=None):
     return out
 
 
-def run_call(mod, fn, argi, script=None, hook=None):
+def run_call(mod, fn, argi, script=None, hook=None, cell_owner="f"):
     """Call fn (a function object) on argument set argi; return outcome dict."""
     mod.__reset__()
     mod.HOOK[0] = hook
@@ -109,7 +109,7 @@ def run_call(mod, fn, argi, script=None, hook=None):
         "log": list(mod.LOG),
         "args": norm(args) + norm(sorted(kwargs.items())),
         "G2": norm(mod.G2),
-        "cells": cells_of(getattr(mod, "f", None)),
+        "cells": cells_of(getattr(mod, cell_owner, None)),
         "events": list(mod.EV),
     }
 
